@@ -502,7 +502,7 @@ func init() {
 		}
 		type runFlags struct {
 			quiet, allowDead, skipClones, allowCirc bool
-			maxCycles                                int64
+			maxCycles                               int64
 		}
 		phaseNames := []string{"c.checkComplexity", "c.checkDeadCode", "c.checkClones", "c.checkCircularDependencies", "c.checkMockdata"}
 		var resolveArgs []Value
@@ -695,7 +695,6 @@ func init() {
 		}
 	})
 }
-
 
 // checkStubs: the Extern hook used to interpret the functions of cmd/pyscn/check.go: construction of services and use
 // cases, cobra plumbing and printing are stubbed; `calls` / `suffix` give the results of the calls that matter.
